@@ -150,13 +150,34 @@ func VerifyFunction(P *Program, S *Specs, key string) (res *FuncResult) {
 						}
 					}
 				}
-				g := sc.evalBool(e.Expr)
-				o := x.oblige("ensures", e.Tags, out.pc, g, fn.Pos(), e.Text)
-				o.Reveal = e.Reveal
-				o.Slow = e.Slow
-				o.Name = fmt.Sprintf("%s/ensures#%d", x.Key, k+1)
-				if e.Label != "" {
-					o.Name = fmt.Sprintf("%s/ensures#%s", x.Key, e.Label)
+			}
+			// postconditions are discharged per return statement (smaller queries than on the merged exit)
+			for ri, rs := range x.topRets {
+				rsc := x.newSpecCtx(f0, nil, rs.st, x.entryState)
+				rsc.body = false
+				for i, v := range rs.res {
+					v.T = fn.Signature.Results().At(i).Type()
+					if i < len(names) {
+						rsc.vars[names[i]] = v
+					}
+					if len(rs.res) == 1 {
+						rsc.vars["result"] = v
+					}
+				}
+				for k, e := range c.Ensures {
+					g := rsc.evalBool(e.Expr)
+					pos := rs.pos
+					if !pos.IsValid() {
+						pos = fn.Pos()
+					}
+					o := x.oblige("ensures", e.Tags, rs.st.pc, g, pos, e.Text)
+					o.Reveal = e.Reveal
+					o.Slow = e.Slow
+					o.Name = fmt.Sprintf("%s/ensures#%d", x.Key, k+1)
+					if e.Label != "" {
+						o.Name = fmt.Sprintf("%s/ensures#%s", x.Key, e.Label)
+					}
+					o.FileID = ri + 1
 				}
 			}
 		}
@@ -171,8 +192,11 @@ func VerifyFunction(P *Program, S *Specs, key string) (res *FuncResult) {
 func (x *Exec) assumeGlobals(f *frame, st *State) {
 	sc := x.newSpecCtx(f, nil, st, nil)
 	sc.body = false
-	if sc.pkg == nil {
-		sc.pkg = x.pkgFor(nil, nil, f)
+	// facts about package-level variables are stated in the scope of the root package
+	for _, p := range x.P.Pkgs {
+		if p.Pkg.Path() == modPath {
+			sc.pkg = p.Pkg
+		}
 	}
 	for _, g := range x.S.Globals {
 		x.assume(TTrue, sc.evalBool(g.Expr), "global")
@@ -241,6 +265,9 @@ func (d *Discharger) Run(obls []*Obligation) {
 			defer wg.Done()
 			for o := range ch {
 				fname := strings.NewReplacer("/", "_", "(", "", ")", "", "*", "", "$", "_", "#", "-", "@", "-").Replace(o.Name)
+				if o.FileID > 0 {
+					fname += fmt.Sprintf(".r%d", o.FileID)
+				}
 				o.Res = Solve(d.Dir, fname, o.smtText, d.Timeout, d.All)
 			}
 		}()
@@ -278,7 +305,7 @@ func (d *Discharger) Run(obls []*Obligation) {
 		o.relaxed = true
 		txt := o.SMT()
 		o.relaxed = false
-		fname := strings.NewReplacer("/", "_", "(", "", ")", "", "*", "", "$", "_", "#", "-", "@", "-").Replace(o.Name) + ".relaxed"
+		fname := strings.NewReplacer("/", "_", "(", "", ")", "", "*", "", "$", "_", "#", "-", "@", "-").Replace(o.Name) + fmt.Sprintf(".r%d.relaxed", o.FileID)
 		r := Solve(d.Dir, fname, txt, d.Timeout, false)
 		if r.Answer == "sat" {
 			o.Res.Model = r.Model
